@@ -3,7 +3,7 @@
 set -e
 cd "$(dirname "$0")"
 export GOFLAGS=-mod=mod GOPROXY=off GOSUMDB=off GOTOOLCHAIN=local
-mkdir -p build evidence replays
+mkdir -p build evidence replays coq/Gen
 (cd gen && go build -o ../build/gen . && ../build/gen /repo ../coq/Gen/Generated.v)
 python3 - <<'PY'
 import sys; sys.path.insert(0, "lib")
